@@ -3,7 +3,7 @@ checks -- per-property wiring: families, counts, coverage accounting, evidence t
 """
 import json
 
-from sim import core, defsim, histsim, runner, streamsim
+from sim import core, defsim, histsim, runner, streamsim, subsim
 
 
 # ----------------------------------------------------------------------------
@@ -343,8 +343,61 @@ def c20(tier):
         ASSUME_DEF, _account_def, design_ref='6')
 
 
-CHECKS = {'C11': c11, 'C12': c12, 'C17': c17, 'C13': c13, 'C08': c08, 'C20': c20}
-ENGINES = {'C11': streamsim, 'C12': streamsim, 'C17': streamsim, 'C13': histsim, 'C08': histsim, 'C20': defsim}
+def _account_sub(stats, plan, tr):
+    stats.steps += sum(len(o) for o in plan['orders'])
+    stats.probe('kind_' + plan['kind'])
+    stats.probe('program_' + plan['opkind'])
+    stats.probe('subsets_decoded_together', sum(len(plan['orders'][ev['o']]) for ev in tr['events'] if ev['via'] != 'encode'))
+    for ev in tr['events']:
+        stats.probe('together_' + {'writer': 'written_by_the_independent_writer', 'encoder': 'decoded_from_the_library_encoder',
+                                   'encode': 'encoded_by_the_library'}[ev['via']])
+        if 'exc' in ev:
+            stats.probe('together_operations_raising')
+    for o in plan['orders']:
+        if len(set(o)) < len(o):
+            stats.probe('orders_repeating_a_content')
+        if len(set(plan['alone'][i]['nbits'] for i in o)) > 1:
+            stats.probe('orders_whose_subsets_differ_in_bit_length')
+        if len(set(plan['alone'][i]['dig']['c'] for i in o)) > 1:
+            stats.probe('orders_whose_subsets_differ_in_value_count')
+    if len(plan['orders']) > 1 and sorted(plan['orders'][0]) == sorted(plan['orders'][1]) and plan['orders'][0] != plan['orders'][1]:
+        stats.probe('permuted_orders')
+    if plan.get('compiled') is not None:
+        stats.probe('compiled_decoder_runs')
+    stats.__dict__.setdefault('programs', set()).add(plan['ref'])
+    stats.probes['distinct_programs_visited'] = len(stats.__dict__['programs'])
+
+
+ASSUME_SUB = [
+    'the reference for every subset content is that content decoded ALONE (single-subset message) in a pristine '
+    'forked process: values, labels, attribute links, hierarchical rendering, and the number of data bits consumed '
+    '(measured by a call-through wrapper around Decoder.process_template_data in the reference process only)',
+    'the together message is written without library code: sections 0-3 of a single-subset message with n_subsets '
+    'patched, the consumed data bits of the chosen contents one after the other, zero padding; a second together '
+    'message is made by the library encoder from the alone value lists',
+    'corpus groups (multi-subset messages cut by the library subset()+encoder) are kept only when the pieces, '
+    'concatenated bit by bit, ARE the data bits of the original message (checked without library code)',
+    'a compiling decoder is compared with contents decoded alone by a compiling decoder (what compilation changes is C08)',
+    'a clean batch is evidence for the sampled programs and orders, not a proof',
+]
+
+
+def c06(tier):
+    return runner.check_main(
+        'C06', tier, subsim, 'subsim',
+        [('c06-each', -1, -1), ('c06', 1500, 40000)],
+        'exploration',
+        'a case is one run: one program (operator program, program ending inside an operator construct / leaving a '
+        'bitmap open / cancelling or re-using bitmaps, plain template, corpus message) x 2..3 orders (repeats '
+        'allowed; an order and a permutation of it) of its 1..16 alone data contents (delayed replication factors '
+        '0..3, other bitmap arrangements, other values) decoded together by ONE decoder object and encoded together '
+        'by one encoder; distinct = (program kind, shape, compiled?, order patterns); non-trivial = the layout '
+        '(bit length or value count) differs between subsets of an order',
+        ASSUME_SUB, _account_sub, design_ref='15')
+
+
+CHECKS = {'C06': c06, 'C11': c11, 'C12': c12, 'C17': c17, 'C13': c13, 'C08': c08, 'C20': c20}
+ENGINES = {'C06': subsim, 'C11': streamsim, 'C12': streamsim, 'C17': streamsim, 'C13': histsim, 'C08': histsim, 'C20': defsim}
 
 
 def replay(prop, path):
@@ -358,4 +411,6 @@ def replay(prop, path):
     elif engine_name == 'defsim':
         from sim import defsim
         eng = defsim
+    elif engine_name == 'subsim':
+        eng = subsim
     return runner.replay(prop, path, eng)
